@@ -87,7 +87,7 @@ func serverCases(r *core.Run) {
 		probe := rd.Bytes(16)
 		for round := 0; round < 2; round++ {
 			for _, i := range order {
-				out := call(false, "GenerateQueryHash", i, "none", probe, "none")
+				out := call(true, "GenerateQueryHash", i, "none", probe, "none")
 				r.Check(out == "ok "+hmacOf(i, probe), "tls-connection-identity",
 					fmt.Sprintf("%s mode: the TLS connection of client %s (#%d, connect order %v) is not served under its own identity (GenerateQueryHash does not use its key)", mode, names[i], i, order))
 			}
@@ -181,7 +181,7 @@ func serverCases(r *core.Run) {
 				}
 			}
 			r.Begin(fmt.Sprintf("srv-%s-queryhash-%d>%d-%x", mode, a, b, marker), true, "entry:server-grpc", "rpc:GenerateQueryHash")
-			out := call(false, "GenerateQueryHash", b, core.Hex(ids[a]), m, "none")
+			out := call(true, "GenerateQueryHash", b, core.Hex(ids[a]), m, "none")
 			r.Check(out == "ok "+hmacOf(b, m), "tls-forged-id", "GenerateQueryHash over the connection of "+names[b]+" naming "+names[a]+" did not use the connection's key")
 			// ---- HTTP API over HTTPS
 			for _, kind := range []string{"struct", "block"} {
